@@ -644,6 +644,22 @@ impl Planner {
 
     /// Plans a RETURN clause.
     fn plan_return(&self, ret: &ReturnOp) -> Result<(Box<dyn Operator>, Vec<String>)> {
+        let (operator, columns) = self.plan_return_projection(ret)?;
+        if ret.distinct {
+            // RETURN DISTINCT: deduplicate the projected rows
+            let output_schema = self.derive_schema_from_columns(&columns);
+            let operator = Box::new(DistinctOperator::new(operator, output_schema));
+            Ok((operator, columns))
+        } else {
+            Ok((operator, columns))
+        }
+    }
+
+    /// Plans the projection of a RETURN clause (without DISTINCT).
+    fn plan_return_projection(
+        &self,
+        ret: &ReturnOp,
+    ) -> Result<(Box<dyn Operator>, Vec<String>)> {
         // Plan the input operator
         let (input_op, input_columns) = self.plan_operator(&ret.input)?;
 
